@@ -394,7 +394,7 @@ func engineC21(c *vctx) error {
 	}
 	worlds, _ = filepath.EvalSymlinks(worlds)
 
-	nsc := c.n(6, 24)
+	nsc := c.n(6, 18)
 	scs := make([]*c21Scenario, nsc)
 	srngs := make([]*vrng, nsc)
 	for i := range scs {
